@@ -208,7 +208,9 @@ def check_C01(c):
 
 # ------------------------------------------------------------------------ C18
 def check_C18(c):
-    c.mc('MC_Constant', _q(c, 'MC_Constant_q.cfg', 'MC_Constant_t.cfg'), workers=16, heap='8g')
+    # no action coverage here: the instance is one initial-state enumeration (every short text) with a single checking step, and
+    # TLC's cost bookkeeping for that enumeration does not fit the heap
+    c.mc('MC_Constant', _q(c, 'MC_Constant_q.cfg', 'MC_Constant_t.cfg'), workers=16, heap='8g', coverage=False)
     jobs = []
     qa = gen.ALPH['quote'] + gen.ALPH['quote_impl_extra']
     for s in gen.all_strings(qa, _q(c, 3, 4)):
@@ -274,6 +276,10 @@ def check_C19(c):
             lists.append([list(t) for t in g.triples])
     syms = ['a', 'b', 'x1', 'bark-01', '-', '+', '1', '0.5', 'é', 'a.b', 'a/b'[:1], 'Z_9', '_']
     strs = ['"q"', '"x y"', '"a,b"', '"(p)"', '"^"', '"a ^ b(c, d)"', '""', '"\\"esc\\""', '", "', '"#"', '"1"']
+    # strings whose content ends in an escaped backslash or mixes escaped backslashes and quotes (several per line when indent=False)
+    strs += ['"C:\\\\data\\\\"', '"\\\\"', '"a\\\\\\"b"', '"\\\\\\""', '"x\\\\"']
+    import json as _json
+    strs += [_json.dumps(''.join(c.rng.choice('ab \\"^,()') for _ in range(c.rng.randint(1, 5)))) for _ in range(12)]
     roles = [':instance', ':ARG0', ':ARG1-of', ':op1', ':mod', ':r', ':x-y']
     for _ in range(_q(c, 1500, 40000)):
         n = c.rng.randint(1, 6)
